@@ -17,8 +17,12 @@ StepOk(o, A) == /\ \A rt \in Routes : o.r[rt] = A /\ o.c[rt] = A
                 \* for OpenGL), columns for as_col_slice (flag FALSE)
                 /\ \A v \in {o.r, o.c} : v.flag = (IF v.lay = "r" THEN 1 ELSE 0) /\ v.named_order = 1
                 /\ o.r.lay # o.c.lay                                   \* the two registers always hold the two different layouts
+\* by induction over the recorded matrices: the abstract matrix after call k is Apply(matrix after call k-1, call k),
+\* the previous matrix being the (already validated) indexing view of the previous step; equal to
+\* Run(Symbols(e.n0), e.calls, k)
 ProgOk(e) == /\ Len(e.obs) = Len(e.calls) + 1
-             /\ \A k \in 0 .. Len(e.calls) : StepOk(e.obs[k + 1], Run(Symbols(e.n0), e.calls, k))
+             /\ StepOk(e.obs[1], Symbols(e.n0))
+             /\ \A k \in 1 .. Len(e.calls) : StepOk(e.obs[k + 1], Apply(e.obs[k].r.idx, e.calls[k]))
 RevRows(A) == [i \in 1 .. Len(A) |-> [j \in 1 .. Len(A) |-> A[i][Len(A) + 1 - j]]]
 RevCols(A) == [i \in 1 .. Len(A) |-> [j \in 1 .. Len(A) |-> A[Len(A) + 1 - i][j]]]
 Ok(e) == CASE e.op = "matprog" -> ProgOk(e)
